@@ -1,5 +1,5 @@
 /- L0 facts about the accessors, Display and Default of StandardDeviation (split from Lemmas/StandardDeviation.lean so that a change to one method only invalidates the facts about that method) -/
-import TaRs.Lemmas.StandardDeviation
+import TaRs.Lemmas.Core.StandardDeviation
 set_option linter.unusedSectionVars false
 namespace TaRs.Gen.StandardDeviation
 open TaRs TaRs.Rs
